@@ -571,7 +571,7 @@ func ruleIsolation(r *Report) {
 
 // ruleRelease: C02.release (FX8)
 func ruleRelease(r *Report) {
-	h := r.Rule("C02.release", "P+A", "every offset reserved by a transaction is released when it does not commit: a failing insert frees its offset and leaves no insert marker; rollback clears, under the exclusive collection mutex, the fill bits of the transaction's insert markers before recounting", 3)
+	h := r.Rule("C02.release", "P+A", "every offset reserved by a transaction is released when it does not commit: a failing insert frees its offset and leaves no insert marker; rollback clears, under the exclusive collection mutex, the fill bits of the transaction's insert markers before recounting", 4)
 	ins := r.Anchor("(*column.Txn).insert")
 	if ins != nil {
 		next := callsTo(ins, false, "(*column.Collection).next")
@@ -604,6 +604,37 @@ func ruleRelease(r *Report) {
 			}
 			mcc, _, _ := callCommon(marker)
 			h.Check(!leak && sameExpr(mcc.Args[2], next[0].(*ssa.Call)), "(*column.Txn).insert/marker", r.P.InstrPos(marker), "insert marker written only after the row callback succeeded", "the insert marker is buffered before the row callback ran: when the callback fails the freed offset still carries an insert marker (a committing transaction re-creates the row; a rollback cannot tell which offsets to release)")
+		}
+	}
+	// KF3: what the failed row callback queued must not survive in a transaction that commits
+	if ins != nil {
+		free := callsTo(ins, false, "(*column.Collection).free")
+		if len(free) > 0 {
+			var truncates func(fn *ssa.Function, depth int) bool
+			truncates = func(fn *ssa.Function, depth int) bool {
+				if fn == nil || fn.Blocks == nil || depth > 3 || !r.P.InLib(fn) {
+					return false
+				}
+				hit := false
+				allInstrs(fn, func(i2 ssa.Instruction) {
+					if st, ok := i2.(*ssa.Store); ok {
+						if fr, ok := fieldOf(st.Addr); ok && fr.Struct == "commit.Buffer" && fr.Field == "buffer" {
+							if _, isSl := st.Val.(*ssa.Slice); isSl {
+								hit = true
+							}
+						}
+					}
+					if cc, _, _ := callCommon(i2); cc != nil && cc.StaticCallee() != nil && truncates(cc.StaticCallee(), depth+1) {
+						hit = true
+					}
+				})
+				return hit
+			}
+			ok, _ := mustPassToReturn(free[0].Block(), 0, func(i2 ssa.Instruction) bool {
+				cc, _, isGo := callCommon(i2)
+				return cc != nil && !isGo && cc.StaticCallee() != nil && !calleeIs(cc, "(*column.Collection).free") && truncates(cc.StaticCallee(), 0)
+			})
+			h.Check(ok, "(*column.Txn).insert/discard", r.P.InstrPos(free[0]), "operations queued by the failed callback are discarded", "a failing insert frees its offset but keeps the column writes its callback queued: if the transaction goes on to commit they are applied to the freed offset — onto whichever row another transaction inserted there meanwhile")
 		}
 	}
 	rb := r.Anchor("(*column.Txn).rollback")
